@@ -85,10 +85,47 @@ class KnownFindings:
         return self.open.get((pid, key))
 
 
+DEGENERATE_MARK = "[tvf: mode fit on a degenerate pool"
+
+
+def install_fit_marker():
+    """Wrap tempest's fit_mvstud (idempotent): when it raises LinAlgError on an input with <= d distinct rows, re-raise a LinAlgError
+    subclass whose message says so.  The library's behaviour is unchanged (same exception type hierarchy, raised at the same point);
+    the harness can tell a degenerate-pool crash from any other failure."""
+    try:
+        import numpy as np
+        import tempest.modes as tm
+        import tempest.student as tst
+    except Exception:
+        return
+    if getattr(tst.fit_mvstud, "_tvf_marked", False):
+        return
+    orig = tst.fit_mvstud
+
+    class DegeneratePoolError(np.linalg.LinAlgError):
+        pass
+
+    def fit_mvstud(data, *a, **k):
+        try:
+            return orig(data, *a, **k)
+        except np.linalg.LinAlgError as e:
+            arr = np.asarray(data)
+            if arr.ndim == 2 and len(np.unique(arr, axis=0)) <= arr.shape[1]:
+                raise DegeneratePoolError(f"{e} {DEGENERATE_MARK}: {len(np.unique(arr, axis=0))} distinct points among {arr.shape[0]} rows in "
+                                          f"{arr.shape[1]} dimensions]") from e
+            raise
+    fit_mvstud._tvf_marked = True
+    fit_mvstud.__wrapped__ = orig
+    tst.fit_mvstud = fit_mvstud
+    if getattr(tm, "fit_mvstud", None) is orig:
+        tm.fit_mvstud = fit_mvstud
+
+
 class Check:
     """One run of one property's check.  Three-valued verdict."""
 
     def __init__(self, pid: str, level: str = "exploration"):
+        install_fit_marker()
         self.pid = pid
         self.level = level
         self.tier = os.environ.get("VERIF_TIER", "quick")
@@ -149,6 +186,15 @@ class Check:
     # ------------------------------------------------------------------ verdicts
     def violation(self, key: str, what: str, witness=None):
         """Record a refuting observation.  `key` names the *mechanism*."""
+        if DEGENERATE_MARK in str(what):
+            # the run died inside the mode fit because the whole weighted pool had collapsed onto <= d distinct points (see
+            # install_fit_marker): a crash of a valid configuration is C18's subject (recorded there as a known finding); the
+            # other properties say nothing about a run that does not reach the states they constrain
+            if self.pid == "C18":
+                key = "mode-fit-singular-degenerate-pool"
+            else:
+                self.event("runs that died in the mode fit on a degenerate pool (C18 known finding; not judged by this property)")
+                return False
         known = self.kf.match(self.pid, key)
         if known is not None:
             self.known_seen.setdefault(key, {"text": known, "count": 0, "first": jsonable(what)})
